@@ -76,6 +76,9 @@ func (multi *MultiEpoch) findEpochNumberFromSignature(ctx context.Context, sig s
 			}
 			if _, err := epoch.FindCidFromSignature(ctx, sig); err == nil {
 				return epochNumber, nil
+			} else if !errors.Is(err, compactindexsized.ErrNotFound) {
+				// e.g. a truncated or unreadable index: do not report it as "not found".
+				return 0, fmt.Errorf("failed to look up signature in epoch %d: %w", epochNumber, err)
 			}
 			// Not found in this epoch.
 			return 0, ErrNotFound
